@@ -316,6 +316,10 @@ pub struct SessSpec {
     /// transport session identifier (0 in old replay files = the default TSI)
     #[serde(default)]
     pub tsi: u64,
+    /// use flute's `Config::default()` as it is (interleave 4, one queue multiplexing 3 files, ...) instead of
+    /// building the configuration from the fields above
+    #[serde(default)]
+    pub default_config: bool,
 }
 
 impl SessSpec {
@@ -335,9 +339,13 @@ impl SessSpec {
             groups: None,
             rfc3926: false,
             tsi: TSI,
+            default_config: false,
         }
     }
     pub fn config(&self) -> Config {
+        if self.default_config {
+            return Config::default();
+        }
         let mut c = Config {
             fdt_duration: Duration::from_secs(self.fdt_duration_s),
             fdt_carousel_mode: match self.fdt_carousel {
